@@ -91,8 +91,28 @@ def gen_case(rng):
     if rng.random() < 0.3:
         for t in rng.sample(tasks, min(len(tasks), rng.randint(1, 2))):
             waited.append([t['uid'], rng.choice(_ORDER[1:-1])])
+
+    # late binding: a task which waits in the client scheduler is bound to a
+    # (still living) pilot somewhere between the pilot events - with no
+    # submission in between
+    late = list()
+    if rng.random() < 0.5:
+        ends_at = {pid: max([i for i, e in enumerate(order)
+                             if e[0] == pid and e[1] in FINAL_STATES] or
+                            [len(order)]) for pid in pids}
+        for t in tasks:
+            if t['bind'] == 'none' and t['state'] not in FINAL_STATES and \
+                    order and rng.random() < 0.7:
+                k   = rng.randrange(len(order))
+                ok  = [p for p in pids if ends_at[p] > k]
+                if ok:
+                    late.append({'uid': t['uid'], 'after': k,
+                                 'pilot': rng.choice(ok),
+                                 'state': rng.choice([
+                                            rps.TMGR_STAGING_INPUT_PENDING,
+                                            rps.AGENT_EXECUTING])})
     return {'pids': pids, 'tasks': tasks, 'events': order,
-            'waited': waited,
+            'waited': waited, 'late_binds': late,
             'foreign': rng.random() < 0.3,
             'resubmit': rng.random() < 0.4}
 
@@ -202,7 +222,18 @@ def run_case(case, res):
         seq.insert(len(seq) // 2, ['pilot.9999', rps.FAILED])
 
     dead = set()
+    late = {}
+    for lb in case.get('late_binds') or []:
+        # positions refer to the pilots' own events
+        late.setdefault(tuple(case['events'][lb['after']]), []).append(lb)
     for pid, pstate in seq:
+
+        for lb in late.pop((pid, pstate), []):
+            if pm._pilots[lb['pilot']].state in FINAL_STATES:
+                continue            # (a duplicated final event came first)
+            tm._update_tasks([{'uid': lb['uid'], 'type': 'task',
+                               'state': lb['state'], 'pilot': lb['pilot']}])
+            res.count('late_binds_applied')
 
         before = {u: snap(t) for u, t in tasks.items()}
         exc = None
